@@ -41,17 +41,53 @@ func EqualVals(a []Value, b []Value) bool {
 	return true
 }
 
+// CompareVals orders key tuples lexicographically; it agrees with EqualVals (0 exactly for
+// equal tuples): a proper prefix comes before the longer tuple, components of different
+// formats (the members of a union key) are ordered by format, components that have no order
+// of their own (bits) by their text
 func CompareVals(a []Value, b []Value) int {
 	for i, v := range a {
-		c := v.(Comparable).Compare(b[i].(Comparable))
-		if c < 0 {
-			return c
+		if i >= len(b) {
+			return 1
 		}
-		if c > 0 {
+		if c := compareVal(v, b[i]); c != 0 {
 			return c
 		}
 	}
+	if len(a) < len(b) {
+		return -1
+	}
 	return 0
+}
+
+func compareVal(a Value, b Value) int {
+	if a == nil || b == nil {
+		switch {
+		case a == nil && b == nil:
+			return 0
+		case a == nil:
+			return -1
+		}
+		return 1
+	}
+	if a.Format() != b.Format() {
+		if a.Format() < b.Format() {
+			return -1
+		}
+		return 1
+	}
+	ca, aCanCompare := a.(Comparable)
+	cb, bCanCompare := b.(Comparable)
+	if aCanCompare && bCanCompare {
+		return ca.Compare(cb)
+	}
+	if Equal(a, b) {
+		return 0
+	}
+	if a.String() < b.String() {
+		return -1
+	}
+	return 1
 }
 
 type Reducer func(index int, v Value, data interface{}) interface{}
